@@ -307,6 +307,25 @@ def check_update_gating(res, E):
                 res.violation("mir:update-reported-without-success", "an RRDP update is reported successful although no update path completed", fn)
     body = E.prog.find(f, "RepositoryUpdate", "delta_update")
     paths = E.explore(body, max_visits=3, nomut=[r"."])
+    # the state (serial, session, ETag, delta hashes) describes what the archive holds: it is written only after
+    # every selected delta has been applied - on every path, whatever the path returns later
+    early = None
+    for i, p in enumerate(paths):
+        st_at = [x for x, e in enumerate(p.events) if e.kind == "call" and re.search(r"RrdpArchive::update_state$", e.name)]
+        if not st_at:
+            continue
+        n += 1
+        for x, e in enumerate(p.events):
+            if e.kind == "call" and re.search(r"DeltaUpdate::try_update$", e.name):
+                if x > st_at[0] and early is None:
+                    early = (i, p, "the new state is written before delta application finished (a delta is applied after update_state)")
+                elif x < st_at[0] and (is_ok(E, p, e) is None or not must(E, p, is_ok(E, p, e))) and early is None:
+                    early = (i, p, "the new state is written although a delta failed to apply")
+    if early:
+        i, p, what = early
+        fn = mprop.write_cex(res, "state_before_deltas_%d" % i, p, E, what)
+        res.violation("mir:delta-update-state-before-deltas", "delta_update: " + what + ": if a later delta (and the fallback snapshot) fails, or the process "
+                      "is killed, the archive claims the notified serial while holding older content; the next Not Modified / equal serial is then reported as updated", fn)
     for i, p in enumerate(paths):
         if p.kind != "return":
             continue
